@@ -44,6 +44,38 @@ def denList (g : Graph) : List Syn → List Rel
   | x :: xs => den g x :: denList g xs
 end
 
+/-! ### The relation the code computes, and the shapes on which it is the specified one
+
+`relC` is `rel` with `NegatedPath.eval`'s own relation (`negRelImpl`) for negated property sets.  The two
+differ only for a set with an inverse member (`!(^p)`, `!(p|^q)`): known finding C11-F5. -/
+
+mutual
+def relC (g : Graph) : Path → Rel
+  | .iri p => fun x y => (x, p, y) ∈ g
+  | .inv p => fun x y => relC g p y x
+  | .seq p ps => compList (relC g p) (relCList g ps)
+  | .alt ps => unionList (relCList g ps)
+  | .mul p m => closure m (relC g p)
+  | .neg fw bw => negRelImpl g fw bw
+def relCList (g : Graph) : List Path → List Rel
+  | [] => []
+  | p :: ps => relC g p :: relCList g ps
+end
+
+mutual
+/-- no negated property set with an inverse member occurs anywhere in the path -/
+def Path.noInvNeg : Path → Bool
+  | .iri _ => true
+  | .inv p => p.noInvNeg
+  | .seq p ps => p.noInvNeg && noInvNegList ps
+  | .alt ps => noInvNegList ps
+  | .mul p _ => p.noInvNeg
+  | .neg _ bw => bw.isEmpty
+def noInvNegList : List Path → Bool
+  | [] => true
+  | p :: ps => p.noInvNeg && noInvNegList ps
+end
+
 /-! ### Statements -/
 
 /-- For every graph, every path of any nesting depth and each of the four bound/unbound combinations
@@ -113,22 +145,93 @@ theorem relList_iso (g : Graph) : ∀ ps : List Path, ∀ S ∈ relList g ps, Is
 end
 
 mutual
-theorem evalPath_correct (g : Graph) : ∀ p : Path, Correct (nodes g) (evalPath g p) (rel g p)
-  | .iri p => by rw [evalPath, rel]; exact tri_correct g p
-  | .inv p => by rw [evalPath, rel]; exact inv_correct (evalPath_correct g p)
-  | .seq p ps => by
-    rw [evalPath, rel]
-    exact seq_correct (evalPath_correct g p) (evalList_correct g ps) (rel_iso g p) (relList_iso g ps)
-  | .alt ps => by rw [evalPath, rel]; exact alt_correct (evalList_correct g ps)
-  | .mul p m => by rw [evalPath, rel]; exact mul_correct (evalPath_correct g p) (rel_iso g p) m
-  | .neg fw bw => by rw [evalPath, rel]; exact neg_correct g fw bw
-theorem evalList_correct (g : Graph) : ∀ ps : List Path, CorrectL (nodes g) (evalList g ps) (relList g ps)
-  | [] => by rw [evalList, relList]; exact .nil
-  | p :: ps => by rw [evalList, relList]; exact .cons (evalPath_correct g p) (evalList_correct g ps)
+theorem relC_iso (g : Graph) : ∀ p : Path, Iso (nodes g) (relC g p)
+  | .iri p => by rw [relC]; exact tri_iso g p
+  | .inv p => by rw [relC]; exact inv_iso (relC_iso g p)
+  | .seq p ps => by rw [relC]; exact compList_iso _ _ (relC_iso g p) (relCList_iso g ps)
+  | .alt ps => by rw [relC]; exact alt_iso (relCList_iso g ps)
+  | .mul p m => by rw [relC]; exact closure_iso m (relC_iso g p)
+  | .neg fw bw => by rw [relC]; exact negImpl_iso g fw bw
+theorem relCList_iso (g : Graph) : ∀ ps : List Path, ∀ S ∈ relCList g ps, Iso (nodes g) S
+  | [] => by simp [relCList]
+  | p :: ps => by
+    intro S hS
+    rw [relCList] at hS
+    rcases List.mem_cons.mp hS with e | e
+    · exact e ▸ relC_iso g p
+    · exact relCList_iso g ps S e
 end
 
-theorem path_correct : Statement_path_correct :=
-  fun g p s o x y => evalPath_correct g p s o x y
+mutual
+/-- every evaluator yields exactly the pairs of the relation the code computes — all paths -/
+theorem evalPath_computes (g : Graph) : ∀ p : Path, Correct (nodes g) (evalPath g p) (relC g p)
+  | .iri p => by rw [evalPath, relC]; exact tri_correct g p
+  | .inv p => by rw [evalPath, relC]; exact inv_correct (evalPath_computes g p)
+  | .seq p ps => by
+    rw [evalPath, relC]
+    exact seq_correct (evalPath_computes g p) (evalList_computes g ps) (relC_iso g p) (relCList_iso g ps)
+  | .alt ps => by rw [evalPath, relC]; exact alt_correct (evalList_computes g ps)
+  | .mul p m => by rw [evalPath, relC]; exact mul_correct (evalPath_computes g p) (relC_iso g p) m
+  | .neg fw bw => by rw [evalPath, relC]; exact negImpl_correct g fw bw
+theorem evalList_computes (g : Graph) : ∀ ps : List Path, CorrectL (nodes g) (evalList g ps) (relCList g ps)
+  | [] => by rw [evalList, relCList]; exact .nil
+  | p :: ps => by rw [evalList, relCList]; exact .cons (evalPath_computes g p) (evalList_computes g ps)
+end
+
+mutual
+/-- without an inverse member in a negated property set, the code's relation is the specified one -/
+theorem relC_eq_rel (g : Graph) : ∀ p : Path, p.noInvNeg = true → relC g p = rel g p
+  | .iri p, _ => by rw [relC, rel]
+  | .inv p, h => by rw [Path.noInvNeg] at h; rw [relC, rel, relC_eq_rel g p h]
+  | .seq p ps, h => by
+    rw [Path.noInvNeg, Bool.and_eq_true] at h
+    rw [relC, rel, relC_eq_rel g p h.1, relCList_eq_relList g ps h.2]
+  | .alt ps, h => by rw [Path.noInvNeg] at h; rw [relC, rel, relCList_eq_relList g ps h]
+  | .mul p m, h => by rw [Path.noInvNeg] at h; rw [relC, rel, relC_eq_rel g p h]
+  | .neg fw bw, h => by
+    rw [Path.noInvNeg] at h
+    cases bw with
+    | nil => rw [relC, rel, negRelImpl_nil]
+    | cons _ _ => simp at h
+theorem relCList_eq_relList (g : Graph) : ∀ ps : List Path, noInvNegList ps = true → relCList g ps = relList g ps
+  | [], _ => by rw [relCList, relList]
+  | p :: ps, h => by
+    rw [noInvNegList, Bool.and_eq_true] at h
+    rw [relCList, relList, relC_eq_rel g p h.1, relCList_eq_relList g ps h.2]
+end
+
+/-- `path_correct` for every path without an inverse member in a negated property set (any depth, all
+    four bindings) -/
+theorem path_correct_partial :
+    ∀ (g : Graph) (p : Path), p.noInvNeg = true → ∀ (s o : Option Term) (x y : Term),
+      (x, y) ∈ evalPath g p s o ↔
+        rel g p x y ∧ (∀ a, s = some a → x = a) ∧ (∀ b, o = some b → y = b) ∧
+          (s = none → o = none → x ∈ nodes g ∧ y ∈ nodes g) := by
+  intro g p h s o x y
+  rw [← relC_eq_rel g p h]
+  exact evalPath_computes g p s o x y
+
+/-- The code falsifies the full statement: `?s !(^q) ?o` on the single triple `1 p 2` must answer
+    `(2, 1)` (the reversed triple, its predicate is not `q`); `NegatedPath.eval` answers `(1, 2)`. -/
+theorem path_correct_witness : ¬ Statement_path_correct := by
+  intro h
+  have hr : rel [(1, 10, 2)] (.neg [] [11]) 2 1 := by
+    rw [rel]
+    exact Or.inr ⟨by decide, 10, by decide, by decide⟩
+  have := (h [(1, 10, 2)] (.neg [] [11]) none none 2 1).mpr
+    ⟨hr, by simp, by simp, fun _ _ => by decide⟩
+  revert this
+  decide
+
+/-- For all paths: what is yielded is exactly the relation the code computes, restricted to the ends. -/
+def Statement_path_computes : Prop :=
+  ∀ (g : Graph) (p : Path) (s o : Option Term) (x y : Term),
+    (x, y) ∈ evalPath g p s o ↔
+      relC g p x y ∧ (∀ a, s = some a → x = a) ∧ (∀ b, o = some b → y = b) ∧
+        (s = none → o = none → x ∈ nodes g ∧ y ∈ nodes g)
+
+theorem path_computes : Statement_path_computes :=
+  fun g p s o x y => evalPath_computes g p s o x y
 
 theorem path_nodup_aux (g : Graph) : ∀ (p : Path) (s o : Option Term), p.isClosure = true →
     (evalPath g p s o).Nodup
@@ -145,24 +248,24 @@ theorem path_nodup_aux (g : Graph) : ∀ (p : Path) (s o : Option Term), p.isClo
 theorem path_nodup : Statement_path_nodup := fun g p s o h => path_nodup_aux g p s o h
 
 theorem path_terminates : Statement_path_terminates :=
-  fun g p m s o => mulRun_ok (evalPath_correct g p) (rel_iso g p) m s o
+  fun g p m s o => mulRun_ok (evalPath_computes g p) (relC_iso g p) m s o
 
 theorem zero_length_on_given_term : Statement_zero_length_on_given_term := by
   intro g p m a hz
-  have hc : rel g (.mul p m) a a := by
-    rw [rel]
+  have hc : relC g (.mul p m) a a := by
+    rw [relC]
     cases m with
     | zeroOrOne => exact Or.inl rfl
     | zeroOrMore => exact ReflTransGen.refl
     | oneOrMore => simp [Mod.zero] at hz
-  refine ⟨(path_correct g _ _ _ a a).mpr ⟨hc, ?_⟩, (path_correct g _ _ _ a a).mpr ⟨hc, ?_⟩,
-    (path_correct g _ _ _ a a).mpr ⟨hc, ?_⟩⟩ <;> simp
+  refine ⟨(path_computes g _ _ _ a a).mpr ⟨hc, ?_⟩, (path_computes g _ _ _ a a).mpr ⟨hc, ?_⟩,
+    (path_computes g _ _ _ a a).mpr ⟨hc, ?_⟩⟩ <;> simp
 
 theorem seq_fw_bw_agree : Statement_seq_fw_bw_agree := by
   intro g p ps a b x y
-  rw [seqFw_correct (evalList_correct g ps) _ _ (evalPath_correct g p) (rel_iso g p) (relList_iso g ps)
+  rw [seqFw_correct (evalList_computes g ps) _ _ (evalPath_computes g p) (relC_iso g p) (relCList_iso g ps)
       (some a) (some b) (Or.inl (by simp)) x y,
-    seqBw_correct (evalPath_correct g p) (evalList_correct g ps) (rel_iso g p) (relList_iso g ps)
+    seqBw_correct (evalPath_computes g p) (evalList_computes g ps) (relC_iso g p) (relCList_iso g ps)
       (some a) (some b) (Or.inl (by simp)) x y]
 
 /-! #### the constructors' flattening -/
@@ -281,10 +384,26 @@ theorem translateList_rel (g : Graph) : ∀ xs : List Syn, relList g (translateL
   | x :: xs => by rw [translateList, relList, denList, translate_rel g x, translateList_rel g xs]
 end
 
-theorem sparql_path_same : Statement_sparql_path_same := by
-  intro g t s o x y
+/-- `sparql_path_same` for every query path whose translation has no inverse member in a negated set -/
+theorem sparql_path_same_partial :
+    ∀ (g : Graph) (t : Syn), (translate t).noInvNeg = true → ∀ (s o : Option Term) (x y : Term),
+      (x, y) ∈ evalPath g (translate t) s o ↔
+        den g t x y ∧ (∀ a, s = some a → x = a) ∧ (∀ b, o = some b → y = b) ∧
+          (s = none → o = none → x ∈ nodes g ∧ y ∈ nodes g) := by
+  intro g t h s o x y
   rw [← translate_rel g t]
-  exact path_correct g (translate t) s o x y
+  exact path_correct_partial g (translate t) h s o x y
+
+/-- the same defect through SPARQL: `SELECT * { ?s !(^q) ?o }` -/
+theorem sparql_path_same_witness : ¬ Statement_sparql_path_same := by
+  intro h
+  have hr : den [(1, 10, 2)] (.nps [] [11]) 2 1 := by
+    rw [den]
+    exact Or.inr ⟨by decide, 10, by decide, by decide⟩
+  have := (h [(1, 10, 2)] (.nps [] [11]) none none 2 1).mpr
+    ⟨hr, by simp, by simp, fun _ _ => by decide⟩
+  revert this
+  decide
 
 /-- What a user gets: the expression `p` is built by the constructors (`build`) and evaluated. -/
 def Statement_path_correct_as_built : Prop :=
@@ -293,10 +412,29 @@ def Statement_path_correct_as_built : Prop :=
       rel g p x y ∧ (∀ a, s = some a → x = a) ∧ (∀ b, o = some b → y = b) ∧
         (s = none → o = none → x ∈ nodes g ∧ y ∈ nodes g)
 
-theorem path_correct_as_built : Statement_path_correct_as_built := by
-  intro g p s o x y
+theorem path_correct_as_built_partial :
+    ∀ (g : Graph) (p : Path), (build p).noInvNeg = true → ∀ (s o : Option Term) (x y : Term),
+      (x, y) ∈ evalPath g (build p) s o ↔
+        rel g p x y ∧ (∀ a, s = some a → x = a) ∧ (∀ b, o = some b → y = b) ∧
+          (s = none → o = none → x ∈ nodes g ∧ y ∈ nodes g) := by
+  intro g p h s o x y
   rw [← build_preserves_rel g p]
-  exact path_correct g (build p) s o x y
+  exact path_correct_partial g (build p) h s o x y
+
+theorem path_correct_as_built_witness : ¬ Statement_path_correct_as_built := by
+  intro h
+  have hr : rel [(1, 10, 2)] (.neg [] [11]) 2 1 := by
+    rw [rel]
+    exact Or.inr ⟨by decide, 10, by decide, by decide⟩
+  have := (h [(1, 10, 2)] (.neg [] [11]) none none 2 1).mpr
+    ⟨hr, by simp, by simp, fun _ _ => by decide⟩
+  revert this
+  decide
+
+/-- The repair of `NegatedPath.eval` kept on branch fix-C11 (`negEvalFixed`) computes the specified
+    negated property set — with it `relC = rel` and `path_correct` holds at full strength. -/
+theorem neg_repair_correct (g : Graph) (fw bw : List Term) :
+    Correct (nodes g) (negEvalFixed g fw bw) (negRel g fw bw) := negFixed_correct g fw bw
 
 /-! ### Non-vacuity: cyclic graph (2-cycle, self-loop, 3-cycle), nested closures, all bindings -/
 
@@ -312,7 +450,7 @@ example : evalPath exG exP (some 1) none = [(1, 4), (1, 5), (1, 6), (1, 2)] := b
 example : evalPath exG exP none (some 2) = [(4, 2), (6, 2), (5, 2), (2, 2), (1, 2)] := by decide
 example : evalPath exG exP (some 1) (some 6) = [(1, 6)] := by decide
 example : (evalPath exG (.mul (.iri 11) .zeroOrMore) none none).length = 15 := by decide
-example : evalPath exG (.neg [10] [11]) none (some 4) = [(6, 4), (2, 4)] := by decide
+example : evalPath exG (.neg [10] []) none (some 4) = [(6, 4), (2, 4)] := by decide
 example : mulOk exG (.iri 11) .oneOrMore (some 4) none = true := by decide
 example : build (.seq (.seq (.iri 10) [.iri 11]) [.seq (.iri 10) [.iri 10]]) =
     .seq (.iri 10) [.iri 11, .iri 10, .iri 10] := rfl
@@ -322,7 +460,7 @@ example : translate (.altS (.seqS (.elt (.altS (.seqS (.elt (.iri 10) none) [.in
       [.seqS (.elt (.nps [10] [12]) none) []]) =
     .alt [.mul (.seq (.iri 10) [.inv (.iri 11)]) .zeroOrMore, .neg [10] [12]] := rfl
 
-/-! ### The defects of the pinned code (before the `fix:` commits of branch fix-C11), kept as
+/-! ### The repaired defects of the pinned code (before the `fix:` commits now on /repo main), kept as
     regression witnesses.  Each definition is the pre-fix generator; each theorem shows on a
     concrete instance that it violates the property. -/
 
@@ -370,17 +508,6 @@ theorem prefix_seq_bw_loses_absent_end :
       [evalPath wG (.mul (.iri 10) .zeroOrMore), evalPath wG (.mul (.iri 10) .zeroOrMore)] none (some 9) = [] ∧
     evalPath wG (.seq (.mul (.iri 10) .zeroOrMore) [.mul (.iri 10) .zeroOrMore, .mul (.iri 10) .zeroOrMore])
       none (some 9) = [(9, 9)] := by decide
-
-/-- pre-fix `NegatedPath.eval`: an inverse member `^a` excluded the *forward* triple `(s, p, o)` when
-    `(o, a, s)` was in the graph -/
-def negEvalPrefix (g : Graph) (fw bw : List Term) : Ev := fun s o =>
-  (g.filter (fun t => okPos s t.1 && (okPos o t.2.2 && (!(decide (t.2.1 ∈ fw)) &&
-      !(bw.any (fun a => decide ((t.2.2, a, t.1) ∈ g))))))).map (fun t => (t.1, t.2.2))
-
-/-- `?s !(^q) ?o` on the single triple `1 p 2`: the answer is `(2, 1)`, the old code said `(1, 2)` -/
-theorem prefix_neg_inverse_wrong :
-    negEvalPrefix [(1, 10, 2)] [] [11] none none = [(1, 2)] ∧
-    evalPath [(1, 10, 2)] (.neg [] [11]) none none = [(2, 1)] := by decide
 
 /-- pre-fix `ReadOnlyGraphAggregate.triples`: the path was evaluated once per member graph and the
     loop rebound `s`, `o` to the last pair produced -/
